@@ -84,11 +84,11 @@ pub fn check(s: &Scenario) -> CheckResult {
         let input_now = match ev {
             Ev::P(v, _) => Obs::Some(times[i], vec![*v]),
             Ev::A => Obs::None,
-            Ev::E(e) => Obs::Err(*e as i32),
+            Ev::E(e) => Obs::Err(exp_code(*e)),
         };
         if kind != Kind::Freeze {
             if let Obs::Err(code) = first {
-                let ok = matches!(ev, Ev::E(e) if *e as i32 == code);
+                let ok = matches!(ev, Ev::E(e) if exp_code(*e) == code);
                 ensure!(ok, format!("C05/{}/stale-error", kname), "event {} ({:?}): get() returns Err({}) although the input did not return that error at the most recent update (history {:?})", i, ev, code, &s.events[..=i]);
             }
         } else {
@@ -179,7 +179,7 @@ fn scenario_for(kind: Kind) -> BoxedStrategy<Scenario> {
     (
         params_strategy(),
         t0_strategy(),
-        proptest::collection::vec(ev_strategy_with([6, 2, 1, 1], dt_pos(), gen::mostly_moderate_any_finite()), 0..=48),
+        proptest::collection::vec(ev_strategy_with([6, 2, 1, 1], prop_oneof![9 => dt_pos(), 1 => Just(0i64)].boxed(), gen::mostly_moderate_any_finite()), 0..=48),
         proptest::collection::vec(0u8..4, 1..=8),
         proptest::collection::vec(prop_oneof![4 => Just(CondEv::F), 4 => Just(CondEv::T), 1 => Just(CondEv::A), 1 => Just(CondEv::E(1)), 1 => Just(CondEv::E(2))], 1..=48),
     )
@@ -222,6 +222,16 @@ impl Property for C05 {
     }
     fn check(s: &Scenario) -> CheckResult {
         check(s)
+    }
+    fn valid(s: &Scenario) -> bool {
+        let p = &s.params;
+        p.k.iter().all(|x| dom::moderate(*x)) && dom::moderate(p.x) && p.cmd_kind < 3 && (1..=10_800_000_000_000).contains(&p.window) && dom::grid(p.unit) && dom::t0_span(s.t0) && s.events.len() <= 48 && s.gets.len() <= 8 && s.cond.len() <= 48 && (s.kind != Kind::Freeze || !s.cond.is_empty())
+            && s.events.iter().all(|e| match e {
+                Ev::P(v, dt) => dom::finite(*v) && (*dt == 0 || dom::dt_pos(*dt)),
+                Ev::A => true,
+                Ev::E(c) => *c <= 2,
+            })
+            && s.cond.iter().all(|c| !matches!(c, CondEv::E(x) if !(1..=2).contains(x)))
     }
     fn assumptions() -> Vec<String> {
         vec![
